@@ -20,6 +20,45 @@ from harness import pipeline
 from harness.translate import fnrules
 
 
+def literal_probes():
+    """numbers the user wrote must reach the generated code and the init values unchanged: a literal of fewer than 53 bits
+    (np.float32(0.1) = 0.10000000149011612) and a 17-digit constant in an init expression, both as thresholds of heaviside"""
+    from Solverz import Model, Var, Eqn, made_numerical, heaviside
+    from harness import lang
+    out = []
+    c32 = np.float32(0.1)
+    for sparse in (True, False):
+        m = Model()
+        m.x = Var("x", [0.100000001, 0.2, float(c32)])
+        m.e = Eqn("e", heaviside(m.x - c32) + 2 * m.x)
+        try:
+            eqs, y0 = lang.quiet(m.create_instance)
+            nd = lang.quiet(made_numerical, eqs, y0, sparse=sparse)
+            x = np.array([0.100000001, 0.2, float(c32)])
+            got = np.asarray(nd.F(x, nd.p), dtype=float)
+            exp = np.where(x - float(c32) >= 0, 1.0, 0.0) + 2 * x
+            if not np.array_equal(got, exp):
+                out.append((dict(model="e = heaviside(x - np.float32(0.1)) + 2 x", x=[float(v) for v in x], backend="inline-sparse" if sparse else "inline-dense"),
+                            f"F = {got}, the declared equation (threshold {float(c32)!r}) evaluates to {exp}"))
+        except Exception as ex:  # noqa
+            out.append((dict(model="e = heaviside(x - np.float32(0.1)) + 2 x"), f"raised {type(ex).__name__}: {str(ex)[:100]}"))
+    c17 = 0.1 + 0.2
+    m = Model()
+    m.x = Var("x", [0.3, c17])
+    m.w = Var("w", init=heaviside(m.x - c17))
+    m.e0 = Eqn("e0", m.w - m.x)
+    m.e1 = Eqn("e1", m.x - 1)
+    try:
+        eqs, y0 = lang.quiet(m.create_instance)
+        w0 = np.asarray(y0["w"], dtype=float)
+        if not np.array_equal(w0, np.array([0.0, 1.0])):
+            out.append((dict(model="w = Var(init=heaviside(x - (0.1 + 0.2))), x = [0.3, 0.1 + 0.2]"),
+                        f"the returned initial vector holds w = {w0}, the init expression evaluates to [0. 1.]"))
+    except Exception as ex:  # noqa
+        out.append((dict(model="Var(init=heaviside(x - (0.1 + 0.2)))"), f"raised {type(ex).__name__}: {str(ex)[:100]}"))
+    return out
+
+
 def run(rep, tier, seed):
     rep.cov["trusted_base"] = BASE_TRUST + [
         "the reference semantics Core/Lang.lean is written from the documentation; Min / AntiWindUp use the rewrite rules that the "
@@ -43,6 +82,7 @@ def run(rep, tier, seed):
             fails.append((dict(model=p["model"]), p["what"]))
         else:
             rep.notes.append(p["what"][:200])
+    fails += literal_probes()
     for r in res["records"]:
         for label, msg, kind in pipeline.judge_F(r):
             case = dict(model=r["gm"].describe(), backend=label, point=r["point"])
